@@ -15,7 +15,13 @@ def _inl(inls) -> str:
     for i in inls:
         t = i[0]
         if t == "r":
-            out.append(f"<span>{word(i[1])}</span>")
+            w_ = word(i[1])
+            if i[1] % 3 == 0:        # one word split over two inline elements
+                out.append(f"<b>{w_[:4]}</b><i>{w_[4:]}</i>")
+            elif i[1] % 3 == 1:      # bare text node
+                out.append(w_)
+            else:
+                out.append(f"<span>{w_}</span>")
         elif t == "br":
             out.append("<br/>")
         elif t == "tab":
@@ -82,7 +88,7 @@ def write_epub(book: dict, opf_dir: str = "OEBPS") -> bytes:
     pre = (opf_dir.strip("/") + "/") if opf_dir else ""       # package file at the root, one or several directories deep
     for n, ch in enumerate(book["chapters"], start=1):
         files[f"{pre}ch{n}.xhtml"] = write_html(ch, xhtml=True)
-        man += f'<item id="ch{n}" href="ch{n}.xhtml" media-type="application/xhtml+xml"/>'
+        man = f'<item id="ch{n}" href="ch{n}.xhtml" media-type="application/xhtml+xml"/>' + man   # manifest order != spine order
         spine += f'<itemref idref="ch{n}"/>'
     for k, img in enumerate(book.get("images") or [], start=1):
         if img.get("data") is not None:
